@@ -17,7 +17,7 @@ TRUSTED = [
 ]
 
 ALPHA = ["'", '"', "\\", "a", "\n", "-", "*", "/", ";", "é", "\U0001F600"]
-ALPHA_X = ALPHA + [" ", "{", "}", "%", "_", "n", "\t", "0", "O", "R", "=", "1"]
+ALPHA_X = ALPHA + [" ", "{", "}", "%", "_", "n", "\t", "0", "O", "R", "=", "1", "\r", "\r\n"]
 STD = ["ansi", "duckdb", "generic", "glaredb", "mssql", "postgres", "sqlite"]
 BSF = ["clickhouse", "snowflake", "redshift"]           # model bs_sql
 ALL_DIALECTS = STD + BSF + ["mysql", "bigquery"]
@@ -25,7 +25,7 @@ ALL_DIALECTS = STD + BSF + ["mysql", "bigquery"]
 HEADER = ("From Coq Require Import List NArith ZArith.\nFrom PV Require Import Lib.ListX Model.Escape Model.SqlLex Model.Literal.\n"
           "Import ListNotations.\nLocal Open Scope N_scope.\n"
           "Definition canon (l : list tok) : list (N * str) := match rev l with TUnterminated :: _ => [(6, [])] | _ => filter (fun p => negb (fst p =? 5)) (map tok_view l) end.\n"
-          "Definition three (s : str) := let e := emit_string s in (e, canon (sql_lex std_sql e), canon (sql_lex bs_sql e), canon (sql_lex mysql_sql e), esc_known QUOTE s).\n"
+          "Definition three (s : str) := let e := emit_literal_string s in (emit_string s, canon (sql_lex std_sql e), canon (sql_lex bs_sql e), canon (sql_lex mysql_sql e), e).\n"
           "Definition lexq (s : str) := (canon (sql_lex std_sql s), canon (sql_lex bs_sql s), canon (sql_lex mysql_sql s)).\n")
 
 KIND = {"String": 1, "Quoted": 2, "DString": 2, "Word": 3, "Number": 4}
@@ -56,12 +56,20 @@ def canon_model(m):
 # ---------------------------------------------------------------- known-finding classes (narrow input predicates)
 
 def f6_value(v):
-    """the value contains two adjacent quotes, or backslash-quote"""
+    """the value contains two adjacent quotes, or backslash-quote: the class of finding F6 (FIXED by e3af91e; no longer
+    used to excuse anything -- only to report how many values of the old class were exercised)"""
     return "''" in v or "\\'" in v
 
 
 def bs_value(v):
     return "\\" in v
+
+
+def f64(fr):
+    try:
+        return float(fr)
+    except OverflowError:
+        return None
 
 
 def inf_spelling(val):
@@ -88,8 +96,6 @@ def run():
         if v is None:
             return None
         d = case.get("dialect")
-        if f6_value(v):
-            return "F6-quote-pairs-not-doubled"
         if d in BSF + ["mysql", "bigquery"] and (bs_value(v) or (d == "bigquery" and "'" in v)):
             return "F6b-backslash-family"
         return None
@@ -103,8 +109,19 @@ def run():
         s = "".join(ck.rng.choice(ALPHA_X if ck.rng.random() < 0.5 else ALPHA[:4]) for _ in range(k))
         if s not in seen:
             seen.add(s); strings.append(s)
-    impl_esc = harness("escape", [{"s": s, "quote": '"'} for s in strings])
-    emitted = [a["string"] for a in impl_esc]
+    impl_esc = harness("escape", [{"s": s, "quote": '"'} for s in strings])                       # sqlparser alone (dependency)
+    impl_lit = harness("escape", [{"s": s.replace("'", "''"), "quote": '"'} for s in strings])    # what prqlc does now: pre-doubled, then sqlparser
+    emitted = [a["string"] for a in impl_lit]
+    # ... and prqlc itself, for every string that has a spelling (all of them): the SQL text of the literal
+    short = [s for s in strings if len(s) <= n_ex and "\x00" not in s]
+    comp1 = harness("compile", [{"src": "from t | select {v = %s}" % ('"' + sp.esc_for('"', s, ck.rng, 1) + '"'), "target": "sql.sqlite"} for s in short])
+    prqlc_text = {}
+    for s, a in zip(short, comp1):
+        sql = a.get("ok", "")
+        if sql.startswith("SELECT ") and sql.endswith(" AS v FROM t"):
+            prqlc_text[s] = sql[len("SELECT "):-len(" AS v FROM t")]
+        else:
+            ck.violation("string literal %r does not compile to SELECT <literal> AS v FROM t" % s, {"kind": "emit-shape", "value": s, "answer": a})
     tok_by = {}
     for d in ("sqlite", "generic", "postgres", "clickhouse", "snowflake", "redshift", "mysql"):
         tok_by[d] = [canon_tok(a) for a in harness("c08_tok", [{"sql": e, "dialect": d} for e in emitted])]
@@ -120,42 +137,43 @@ def run():
     for i, s in enumerate(strings):
         ck.count("escape-model", s, nontrivial=("'" in s))
         ck.stat("escape-model", "len%d" % min(len(s), 9))
-        if model3 is None:
-            continue
-        m = model3[i]
-        if s_of(m[0]) != emitted[i]:
-            ck.violation("model of EscapeQuotedString differs from sqlparser's Display", {"kind": "model-vs-sqlparser", "s": s, "model": s_of(m[0]), "impl": emitted[i]})
-        for d, f in fam.items():
-            ck.count("sqllex-model", d + "|" + s, nontrivial=("'" in s or "\\" in s))
-            mm, ii = canon_model(m[f]), tok_by[d][i]
-            clean = not f6_value(s) and (f == 1 or "\\" not in s)
-            if clean:
-                differ = mm != ii
-            else:
-                # inside the known classes the text after the early end of the literal is arbitrary SQL, where the
-                # tokenizers have dialect quirks of their own (-- needs a space in MySQL, %-- is an operator for
-                # sqlparser's postgres, emoji are no identifier characters): compare what matters, the string token
-                differ = bool(mm and ii and mm[0][0] == 1 and ii[0][0] == 1 and mm[0] != ii[0]) or ((mm == [(1, s)]) != (ii == [(1, s)]))
-            if differ:
-                ck.violation("SQL lexer model differs from sqlparser's %s tokenizer" % d,
-                             {"kind": "lexmodel-vs-sqlparser", "dialect": d, "s": s, "text": emitted[i], "model": canon_model(m[f]), "impl": tok_by[d][i]})
-        # the known class is exact: the round trip fails iff the value is in it (standard family)
-        rt = canon_model(m[1]) == [(1, s)]
-        known = bool(m[4])
-        if known != f6_value(s):
-            ck.violation("python class predicate differs from Coq esc_known", {"kind": "classifier", "s": s})
-        if rt == known:
-            ck.violation("known class F6 is not exact: round trip %s for a value %s the class" % ("holds" if rt else "fails", "in" if known else "outside"),
-                         {"kind": "class-exactness", "s": s, "text": emitted[i]})
-        if not rt:
-            ck.disagreement("string literal value %r is not read back from %r" % (s, emitted[i]), {"kind": "roundtrip", "value": s, "dialect": "sqlite", "text": emitted[i]}, cl_string)
-        # real tokenizers of the standard family must see exactly the value
+        if f6_value(s):
+            ck.stat("escape-model", "old-F6-class")
+        # implementation side, independent of the Coq model: the real tokenizers must read exactly the value back
         for d in ("sqlite", "generic", "postgres"):
-            if tok_by[d][i] != [(1, s)] and not known:
+            if tok_by[d][i] != [(1, s)]:
                 ck.disagreement("sqlparser %s tokenizer does not read %r back from %r" % (d, s, emitted[i]), {"kind": "tok-roundtrip", "value": s, "dialect": d, "text": emitted[i], "tokens": tok_by[d][i]}, cl_string)
         for d in ("clickhouse", "snowflake", "redshift", "mysql"):
             if tok_by[d][i] != [(1, s)]:
                 ck.disagreement("sqlparser %s tokenizer does not read %r back from %r" % (d, s, emitted[i]), {"kind": "tok-roundtrip", "value": s, "dialect": d, "text": emitted[i], "tokens": tok_by[d][i]}, cl_string)
+        if s in prqlc_text and prqlc_text[s] != emitted[i]:
+            ck.violation("prqlc emits %r for the string value %r; quote-doubling followed by sqlparser's Display gives %r" % (prqlc_text[s], s, emitted[i]),
+                         {"kind": "prqlc-vs-predoubled", "value": s, "prqlc": prqlc_text[s], "expected": emitted[i]})
+        if model3 is None:
+            continue
+        m = model3[i]
+        if s_of(m[0]) != impl_esc[i]["string"]:
+            ck.violation("model of EscapeQuotedString differs from sqlparser's Display", {"kind": "model-vs-sqlparser", "s": s, "model": s_of(m[0]), "impl": impl_esc[i]["string"]})
+        if s_of(m[4]) != emitted[i]:
+            ck.violation("model emit_literal_string differs from pre-doubling + sqlparser's Display", {"kind": "model-vs-impl", "s": s, "model": s_of(m[4]), "impl": emitted[i]})
+        if s in prqlc_text and prqlc_text[s] != s_of(m[4]):
+            ck.violation("model emit_literal_string differs from prqlc's output for %r" % s, {"kind": "model-vs-prqlc", "value": s, "model": s_of(m[4]), "prqlc": prqlc_text[s]})
+        for d, f in fam.items():
+            ck.count("sqllex-model", d + "|" + s, nontrivial=("'" in s or "\\" in s))
+            mm, ii = canon_model(m[f]), tok_by[d][i]
+            clean = (f == 1 or "\\" not in s)
+            if clean:
+                differ = mm != ii
+            else:
+                # backslash family, value with a backslash (F6b, open): the text after an early end of the literal is
+                # arbitrary SQL where the tokenizers have quirks of their own: compare what matters, the string token
+                differ = bool(mm and ii and mm[0][0] == 1 and ii[0][0] == 1 and mm[0] != ii[0]) or ((mm == [(1, s)]) != (ii == [(1, s)]))
+            if differ:
+                ck.violation("SQL lexer model differs from sqlparser's %s tokenizer" % d,
+                             {"kind": "lexmodel-vs-sqlparser", "dialect": d, "s": s, "text": emitted[i], "model": mm, "impl": ii})
+        # the round trip holds for EVERY string on the standard family (theorem string_roundtrip)
+        if canon_model(m[1]) != [(1, s)]:
+            ck.violation("model: string literal value %r is not read back from %r" % (s, emitted[i]), {"kind": "roundtrip", "value": s, "dialect": "sqlite", "text": emitted[i]})
     ck.coverage["escape_exhaustive_upto"] = n_ex
 
     # ------------------------------------------------------------ 2. PRQL literal decoding: model vs prql_to_tokens vs python reference
@@ -222,7 +240,8 @@ def run():
             if tag == "int" and iv != ("Integer", exp):
                 ck.violation("number spelling %r should be the integer %d, lexes to %r" % (src, exp, iv), case)
             if tag == "real":
-                ok = iv[0] == "Float" and (iv[1] is None or Fraction(iv[1]) == exp or kind.endswith("extreme") or len(src) > 17)
+                # the float the lexer produced must be the correctly rounded binary64 of the exact decimal value
+                ok = iv[0] == "Float" and ((iv[1] is None and inf_spelling(exp)) or (iv[1] is not None and not inf_spelling(exp) and Fraction(iv[1]) == Fraction(float(exp))))
                 if not ok:
                     ck.violation("number spelling %r should be the float %s, lexes to %r" % (src, exp, iv), case)
         if iv is None and pv is not None:
@@ -242,7 +261,7 @@ def run():
                         mv = {0: ("Null", None), 1: ("Integer", z), 3: ("Boolean", bool(z)), 4: ("String", ps),
                               5: ("RawString", ps), 6: ("F", ps), 7: ("Date", ps), 8: ("Time", ps), 9: ("Timestamp", ps)}[tag]
             same = (mv == iv) or (mv and iv and mv[0] == "FloatDec" and iv[0] == "Float" and
-                                  (iv[1] is None or abs(mv[1][1]) > 400 or Fraction(iv[1]) == Fraction(float(Fraction(mv[1][0]) * Fraction(10) ** mv[1][1]))))
+                                  (iv[1] is None or abs(mv[1][1]) > 400 or f64(Fraction(mv[1][0]) * Fraction(10) ** mv[1][1]) in (None, iv[1])))
             if not same:
                 case["model"] = mv
                 ck.violation("literal model differs from prql_to_tokens on %r: model %r, implementation %r" % (src, mv, iv), case)
@@ -287,8 +306,6 @@ def run():
     ex_ans = dict(zip(ex_idx, harness("exec", ex_reqs)))
 
     def cl_e2e(case):
-        if case.get("kind", "").startswith("string"):
-            return "F6-quote-pairs-not-doubled" if f6_value(case.get("value", "")) else None
         if case.get("kind", "").startswith("number") and case.get("overflow"):
             return "F14-float-overflow-inf"
         return None
@@ -318,8 +335,25 @@ def run():
         elif etag in ("int", "bool"):
             ok = isinstance(got, int) and not isinstance(got, bool) and got == exp
         elif etag == "real":
-            ok = isinstance(got, dict) and "f" in got and got["f"] not in ("inf", "NaN", "-inf") and Fraction(float(got["f"])) == Fraction(float(exp))
-            # binary-exact spellings must come back exactly; others as the correctly rounded double
+            want = f64(exp)
+            # (a) the number text in the SQL must denote exactly the correctly rounded binary64 of the literal's value
+            #     (python's float() of a decimal text is correctly rounded; independent of SQLite)
+            sql_num = a["ok"][len("SELECT "):-len(" AS v FROM t")] if a["ok"].startswith("SELECT ") and a["ok"].endswith(" AS v FROM t") else None
+            try:
+                text_ok = sql_num is not None and want is not None and float(sql_num) == want
+            except ValueError:
+                text_ok = False
+            # (b) what SQLite makes of it: exactly, where SQLite's own decimal->double conversion is exact (<= 15 significant
+            #     digits, |decimal exponent| <= 22); within 4 ulp elsewhere (SQLite 3.49 reads 1.5e300 as 1.4999999999999998e300)
+            ok = False
+            if text_ok and isinstance(got, dict) and "f" in got and got["f"] not in ("inf", "NaN", "-inf"):
+                g = float(got["f"])
+                import math
+                mant = sql_num.lower().split("e")[0].replace(".", "").lstrip("0")
+                e10 = (int(sql_num.lower().split("e")[1]) if "e" in sql_num.lower() else 0)
+                exact_zone = len(mant.rstrip("0")) <= 15 and abs(e10) <= 22 and len(mant) <= 22
+                ok = (g == want) if exact_zone else (abs(g - want) <= 4 * math.ulp(want))
+                ck.stat("e2e-sqlite", "float-exact-zone" if exact_zone else "float-4ulp-zone")
         elif etag == "null":
             ok = got is None
         if not ok:
